@@ -91,6 +91,37 @@ def diff_snapshots(a, b, limit=6):
   return out
 
 
+def diff_cells(a, b):
+  """Set of (table, col, row) cells that differ between two snapshots with the same tables, columns
+  and row ids; None when the difference is structural."""
+  if set(a) != set(b): return None
+  out = set()
+  for t in a:
+    (ra, ca), (rb, cb) = a[t], b[t]
+    if ra != rb or set(ca) != set(cb): return None
+    for c in ca:
+      if ca[c] != cb[c]:
+        out.update((t, c, r) for r, x, y in zip(ra, ca[c], cb[c]) if x != y)
+  return out
+
+
+def scratch(e):
+  """From-scratch recalculation of e's own stored data (the specification function of C05): a fresh
+  engine loaded with e's metadata and data columns only, then Calculate."""
+  f = _engine.Engine()
+  rest = f.load_meta_tables(e.fetch_table('_grist_Tables'), e.fetch_table('_grist_Tables_column'))
+  for t in rest:
+    f.load_table(e.fetch_table(t, formulas=False))
+  f.apply_user_actions([useractions.from_repr(['Calculate'])])
+  return f
+
+
+def stale_cells(e):
+  """Cells of e that a from-scratch recalculation of e's own data computes differently (None when
+  the two engines differ structurally)."""
+  return diff_cells(snapshot(e), snapshot(scratch(e)))
+
+
 def undo_reprs(group):
   return [actions.get_action_repr(a) for a in group.undo]
 
